@@ -142,6 +142,81 @@ def impl_oracle(c):
             if o.get("final") != "none":
                 out.append(("ended-still-registered", "the name still resolves after the endpoint ended; " + how))
         return out
+    if c["stream"] == "token":
+        out = [x for x in out if x[0] not in ("callbacks-unpaired", "hang")]
+        for o in c.get("token", []):
+            live = None                                   # (index, siding) of the endpoint that should be registered
+            accepted = 0
+            for j, t in enumerate(o.get("conns", [])):
+                how = "round %d, connection #%d (%s, SideToken answers %s while it connects)" \
+                      % (o["round"], j + 1, "Siding" if t.get("siding") else "not siding", t.get("token"))
+                if not t.get("outcome"):
+                    continue
+                if t["outcome"] == "accepted":
+                    accepted += 1
+                    live = (j, bool(t.get("siding")))
+                    if t.get("after") != "this":
+                        out.append(("newest-not-registered",
+                                    "the name resolves to '%s' instead of the connection just accepted; %s"
+                                    % (t.get("after"), how)))
+                else:
+                    if t.get("prev_ended"):
+                        live = None
+                    if t.get("after") == "other" or (t.get("after") == "prev" and t.get("prev_ended")):
+                        out.append(("ended-endpoint-still-registered",
+                                    "the server refused the connection (%s) and its ServeBack has returned, but the name "
+                                    "still resolves to an endpoint client ('%s') that is none of the live ones: the "
+                                    "refused connection stayed registered; %s" % (t.get("err"), t.get("after"), how)))
+                if not t.get("front"):
+                    continue
+                fr = t["front"]
+                fhow = "the front connection made afterwards (SideToken answers %s) was %s" % (t.get("front_token"), fr)
+                if live is None:
+                    if fr == "blocked":
+                        out.append(("dial-blocked-on-dead-endpoint",
+                                    "no endpoint of the name is live, yet %s for 10 s instead of being closed "
+                                    "(the name resolves to '%s'); %s" % (fhow, t.get("after2"), how)))
+                    elif fr != "closed":
+                        out.append(("front-served-without-live-endpoint", "%s; %s" % (fhow, how)))
+                elif live[1] and t.get("front_token") == "error":
+                    # the live siding endpoint cannot get a token: the dial fails, the endpoint stays
+                    if fr != "closed":
+                        out.append(("front-hang" if fr == "blocked" else "front-served-without-token",
+                                    "%s; %s" % (fhow, how)))
+                    if t.get("after2") != t.get("after") or not t.get("alive"):
+                        out.append(("front-dial-unregistered-live-endpoint",
+                                    "after the failed dial the name resolves to '%s' (before: '%s'), the endpoint %s; %s"
+                                    % (t.get("after2"), t.get("after"),
+                                       "answers" if t.get("alive") else "does not answer", how)))
+                else:
+                    if fr == "blocked":
+                        out.append(("front-hang", "%s; %s" % (fhow, how)))
+                    elif fr != "served" or t.get("served_by") != live[0]:
+                        out.append(("later-front-not-served",
+                                    "%s (by connection #%s) although connection #%d is live and registered; %s"
+                                    % (fhow, t.get("served_by", -1) + 1, live[0] + 1, how)))
+            if o.get("hang") and not any(x[0] in ("dial-blocked-on-dead-endpoint", "front-hang") for x in out):
+                out.append(("hang", "no progress within 10 s: %s (round %d)" % (o["hang"], o["round"])))
+            if o.get("hang"):
+                continue
+            if o.get("final") != "none":
+                out.append(("ended-still-registered",
+                            "after every endpoint of round %d had ended the name still resolves" % o["round"]))
+            if o.get("final_front") != "closed":
+                out.append(("dial-blocked-on-dead-endpoint" if o.get("final_front") == "blocked"
+                            else "front-served-without-live-endpoint",
+                            "after every endpoint of round %d had ended a front connection was %s"
+                            % (o["round"], o.get("final_front"))))
+            per = {}
+            for x in o.get("notes", []):
+                per.setdefault(x["s"], []).append((x["k"], x["n"]))
+            if len(per) != accepted:
+                out.append(("callbacks-unpaired", "%d accepted connections but notifications for %d sessions (round %d)"
+                            % (accepted, len(per), o["round"])))
+            for sv, l in sorted(per.items()):
+                if len(l) != 2 or l[0][0] != "connect" or l[1][0] != "disconnect" or l[0][1] != l[1][1]:
+                    out.append(("callbacks-unpaired", "session %s has notifications %s (round %d)" % (sv, l, o["round"])))
+        return out
     if c["stream"] == "silent":
         out = [x for x in out if x[0] not in ("callbacks-unpaired", "hang")]
         for o in c.get("silent", []):
@@ -253,7 +328,8 @@ def run(ck):
         nsilent = 1 if not ck.thorough else 10       # (2 rounds each; a round costs the kick's 3 s time-out)
         rc, out, err = vlib.sh2([binp, "-seed", str(ck.seed), "-n", str(n), "-free", str(nfree),
                                  "-race", str(nrace), "-silent", str(nsilent),
-                                 "-front", "2" if not ck.thorough else "12", "-slow", "0" if not ck.thorough else "1",
+                                 "-front", "2" if not ck.thorough else "12",
+                                 "-token", "2" if not ck.thorough else "20", "-slow", "0" if not ck.thorough else "1",
                                  "-budget", "150" if not ck.thorough else "900"],
                                 timeout=3000)
         if rc != 0:
@@ -282,6 +358,15 @@ def run(ck):
             key = [c["i"], [(o["how"], o.get("refused"), o.get("after")) for o in c.get("front", [])]]
             ck.coverage["front_refused_dials"] = ck.coverage.get("front_refused_dials", 0) \
                 + sum(o.get("refused", 0) for o in c.get("front", []))
+        if c["stream"] == "token":
+            key = [c["i"], [[(t.get("siding"), t.get("token"), t.get("outcome"), t.get("front_token"), t.get("front"))
+                             for t in o.get("conns", [])] for o in c.get("token", [])]]
+            tk = ck.coverage.setdefault("token_stream_connections", {})
+            for o in c.get("token", []):
+                for t in o.get("conns", []):
+                    kk = "%s/token-%s/%s/front-token-%s/%s" % ("siding" if t.get("siding") else "plain", t.get("token"),
+                                                               t.get("outcome"), t.get("front_token"), t.get("front"))
+                    tk[kk] = tk.get(kk, 0) + 1
         if c["stream"] == "silent":
             key = [c["i"], [(o["silent_peers"], o.get("after"), len(o.get("notes", []))) for o in c.get("silent", [])]]
             ck.coverage["silent_peer_rounds"] = ck.coverage.get("silent_peer_rounds", 0) + len(c.get("silent", []))
